@@ -114,20 +114,33 @@ Outcome check_plan(const std::string &prop, const Plan &p)
                 ro.monitor = false; // robustness-only plans outside the modelled domain
         if ((prop == "C16" || prop == "C17") && p.mutex && !engine_asan())
                 ro.lockset = true;
+        if (prop == "C20")
+                ro.keep_going = true;
         o.res = run_plan(p, ro);
         o.runs = 1;
         classify(o, prop, o.res.viol);
         if (o.viol.set())
                 return o;
 
-        if (prop == "C12" && !o.res.viol.set() && !o.res.desync) {
+        if (prop == "C12" && !o.res.desync) {
                 Plan e = plan_eager(p);
                 RunOpts eo;
                 eo.eager = true;
                 RunResult re = run_plan(e, eo);
                 o.runs++;
                 o.twin_pairs++;
-                if (re.viol.set()) {
+                if (re.viol.set() != o.res.viol.set() && !re.desync && !re.eng.overrun && !o.res.eng.overrun) {
+                        // the (schedule-independent) model is satisfied under one schedule and violated under the
+                        // other: whatever the finding is about, the behaviour depends on the schedule
+                        const Violation &w = re.viol.set() ? re.viol : o.res.viol;
+                        Violation v;
+                        v.prop = "C12";
+                        v.rule = "conforms-under-one-schedule-only";
+                        v.detail = std::string("the ") + (re.viol.set() ? "eager" : "perturbed") + " schedule of this plan violates " + w.prop + "/" + w.rule + " while the " +
+                                   (re.viol.set() ? "perturbed" : "eager") + " schedule of the same plan conforms: " + w.detail;
+                        o.other = Violation();
+                        classify(o, prop, v);
+                } else if (re.viol.set() || o.res.viol.set()) {
                         classify(o, prop, re.viol);
                 } else if (!re.desync && !re.eng.overrun && !o.res.eng.overrun) {
                         const RunResult &rp = o.res;
@@ -182,16 +195,40 @@ Outcome check_plan(const std::string &prop, const Plan &p)
                 }
         }
 
-        if (prop == "C20" && !o.res.viol.set() && !o.res.desync) {
+        if (prop == "C20" && !o.res.desync) {
                 Plan iso = derive_isolated(p);
                 RunOpts io;
                 io.eager = true;
+                io.keep_going = true;
                 RunResult ri = run_plan(iso, io);
                 o.runs++;
                 o.twin_pairs++;
-                if (ri.viol.set())
-                        classify(o, prop, ri.viol);
-                else if (!ri.desync && !ri.eng.overrun && !o.res.eng.overrun) {
+                if (ri.viol.set() != o.res.viol.set() && !ri.desync && !ri.eng.overrun && !o.res.eng.overrun) {
+                        // every line conforms when fed alone to a fresh parser but not in sequence (or vice versa)
+                        const Violation &w = ri.viol.set() ? ri.viol : o.res.viol;
+                        Violation v;
+                        v.prop = "C20";
+                        v.rule = "conforms-only-in-isolation";
+                        v.detail = std::string("the lines ") + (ri.viol.set() ? "fed one by one to fresh parsers" : "fed in sequence") + " violate " + w.prop + "/" + w.rule + " while the same lines " +
+                                   (ri.viol.set() ? "in sequence" : "fed one by one to fresh parsers") + " conform: " + w.detail;
+                        o.other = Violation();
+                        classify(o, prop, v);
+                } else if (ri.viol.set() || o.res.viol.set()) {
+                        // both object: the complete byte streams (no events in this profile) still have to agree
+                        bool events = false;
+                        for (auto &op : p.ops)
+                                events |= op.kind == OP_TRIG;
+                        Violation v;
+                        if (!events && !ri.eng.overrun && !o.res.eng.overrun && ri.out != o.res.out)
+                                v = twin_viol("C20", "output-differs-from-isolated-lines", "output for the line sequence differs from the concatenated outputs of the lines fed alone to a fresh parser (both runs also violate " +
+                                                                                               o.res.viol.prop + "/" + o.res.viol.rule + ")",
+                                              o.res.out, ri.out);
+                        if (v.set()) {
+                                o.other = Violation();
+                                classify(o, prop, v);
+                        } else
+                                classify(o, prop, ri.viol);
+                } else if (!ri.desync && !ri.eng.overrun && !o.res.eng.overrun) {
                         Violation v;
                         if (ri.cmd_units != o.res.cmd_units)
                                 v = twin_viol("C20", "response-depends-on-earlier-lines", "output for the line sequence differs from the concatenated outputs of the lines fed alone to a fresh parser",
